@@ -1,10 +1,355 @@
 import Driver.Common
-/-! Judge for C20: not built yet (stub so that the target exists). -/
-open Lean Driver
+import EgVerif.Spec.Lifecycle
+/-!
+Judge for C20. One harness case = kind table, watchers, a history of snapshots / attachments, a
+fault set; the observation has, per history item, the events each watcher received, the lifecycle
+calls made, the supervisor's live set and the registry.
+
+* `agree`: events, per-step calls (up to the order inside the delete / create / update loops — Go
+  map iteration), live set and registry equal the model's (`Model/Lifecycle.lean`).
+* `spec`: for every consumer watcher and every name, the observed calls of every step are exactly
+  `wordStep` of the declarative per-name specification (`Spec/Lifecycle.lean`), the live set is the
+  spec's view, and no panic escaped.
+-/
+open Lean EgVerif.Lifecycle
 
 namespace Driver.C20
 
-def judges : List (String × Judge) := []
+structure WatcherIn where
+  cats : List Nat
+  all : Bool
+  consumer : Bool
+  /-- the harness cannot see this watcher's events (a real run loop consumes them) -/
+  noEvents : Bool := false
+  /-- kinds the consumer keeps in its first map (slot 0); every other kind goes to slot 1 -/
+  pipeKinds : List Nat := []
+  createChecks : Bool := true
+
+structure In where
+  cats : List Nat
+  watchers : List WatcherIn
+  hist : List (Option Config × Nat)      -- (some cfg, _) = snapshot; (none, w) = attach watcher w
+  panics : List (Nat × Nat × Nat × Nat)  -- op, name, kind, body
+
+def opOfStr : String → Nat
+  | "init" => 0 | "inherit" => 1 | _ => 2
+
+def opNat : Op → Nat
+  | .init => 0 | .inherit => 1 | .close => 2
+
+def opName : Op → String
+  | .init => "init" | .inherit => "inherit" | .close => "close"
+
+def parseEntry (j : Json) : Except String (Nat × Option (Kind × Body)) := do
+  let n ← getNat j "n"
+  let k ← getNat j "k"
+  let b ← getNat j "b"
+  let bad := optInt j "bad"
+  pure (n, if bad != 0 then none else some (k, b))
+
+/-- later duplicates override earlier ones (the harness builds a Go map) -/
+def dedupe (l : List (Nat × Option (Kind × Body))) : Config :=
+  l.foldl (fun m e => Map.set m e.1 e.2) []
+
+def parseIn (j : Json) : Except String In := do
+  let cats ← getIntList j "cats"
+  let ws ← getArr j "watchers"
+  let watchers ← ws.toList.mapM fun w => do
+    let cs ← getIntList w "cats"
+    let pk := match getIntList w "pipeKinds" with | .ok l => l.map Int.toNat | .error _ => []
+    pure ({ cats := cs.map Int.toNat, all := optBool w "all", consumer := optBool w "consumer",
+            noEvents := optBool w "noEvents" || optBool j "noEvents", pipeKinds := pk,
+            createChecks := optBool w "createChecks" true } : WatcherIn)
+  let hs ← getArr j "hist"
+  let hist ← hs.toList.mapM fun h => do
+    if optBool h "isSnap" then
+      let es := match getArr h "snap" with | .ok a => a | .error _ => #[]
+      let l ← es.toList.mapM parseEntry
+      pure (some (dedupe l), 0)
+    else
+      pure (none, (optInt h "attach").toNat)
+  let ps ← getArr j "panics"
+  let panics ← ps.toList.mapM fun p => do
+    let op ← getStr p "op"
+    let n ← getNat p "n"
+    let k ← getNat p "k"
+    let b ← getNat p "b"
+    pure (opOfStr op, n, k, b)
+  pure { cats := cats.map Int.toNat, watchers := watchers, hist := hist, panics := panics }
+
+/-- kinds whose category is 9 are not registered: the yaml is rejected -/
+def validate (inp : In) (c : Config) : Config :=
+  c.map fun e => (e.1, match e.2 with
+    | some (k, b) => if inp.cats.getD k 9 == 9 then none else some (k, b)
+    | none => none)
+
+def mkParams (inp : In) (w : WatcherIn) : Params :=
+  { cat := fun k => inp.cats.getD k 9
+    filter := fun c => w.all || w.cats.contains c
+    slot := fun k => if w.pipeKinds.isEmpty || w.pipeKinds.contains k then 0 else 1
+    createChecks := w.createChecks
+    panics := fun op n e => inp.panics.contains (opNat op, n, e.kind, e.body)
+    order := fun _ _ m => m }
+
+def parseEnt (j : Json) : Except String (Nat × Entity) := do
+  let a ← j.getArr?
+  unless a.size == 4 do throw "ent"
+  let n : Int ← a[0]!.getInt?
+  let g : Int ← a[1]!.getInt?
+  let k : Int ← a[2]!.getInt?
+  let b : Int ← a[3]!.getInt?
+  -- unknown generations / names are reported as -1 by the harness: map them out of range
+  pure (if n < 0 then 1000000 else n.toNat, ⟨if g < 0 then 1000000 else g.toNat, if k < 0 then 1000000 else k.toNat, if b < 0 then 1000000 else b.toNat⟩)
+
+def parseEnts (j : Json) (k : String) : Except String (List (Nat × Entity)) := do
+  let a ← getArr j k
+  a.toList.mapM parseEnt
+
+def parseCall (j : Json) : Except String Call := do
+  let a ← j.getArr?
+  unless a.size == 9 do throw "call"
+  let v ← a.toList.mapM (·.getInt?)
+  let nat (i : Int) : Nat := if i < 0 then 1000000 else i.toNat
+  let op : Op := match v[0]! with | 0 => .init | 1 => .inherit | _ => .close
+  let prev : Option Entity := if v[5]! < 0 && v[6]! < 0 then none else some ⟨nat v[5]!, nat v[6]!, nat v[7]!⟩
+  pure ⟨op, nat v[1]!, ⟨nat v[2]!, nat v[3]!, nat v[4]!⟩, prev, v[8]! != 0⟩
+
+structure ObsStep where
+  events : List (Nat × Event)
+  wents : List (Nat × List (Nat × Entity)) := []
+  log : List Call
+  live : List (Nat × Entity)
+  reg : List (Nat × Entity)
+
+def parseStep (j : Json) : Except String ObsStep := do
+  let evs ← getArr j "events"
+  let events ← evs.toList.mapM fun e => do
+    let w ← getNat e "w"
+    let d ← parseEnts e "del"
+    let c ← parseEnts e "cre"
+    let u ← parseEnts e "upd"
+    pure (w, (⟨d, c, u⟩ : Event))
+  let wsJ := match getArr j "wents" with | .ok a => a | .error _ => #[]
+  let wents ← wsJ.toList.mapM fun e => do
+    let w ← getNat e "w"
+    let es ← parseEnts e "ents"
+    pure (w, es)
+  let ls ← getArr j "log"
+  let log ← ls.toList.mapM parseCall
+  let live ← parseEnts j "live"
+  let reg ← parseEnts j "reg"
+  pure { events := events, wents := wents, log := log, live := live, reg := reg }
+
+/-- insertion sort (small lists) -/
+def insertBy {α} (lt : α → α → Bool) (x : α) : List α → List α
+  | [] => [x]
+  | y :: r => if lt x y then x :: y :: r else y :: insertBy lt x r
+
+def sortBy {α} (lt : α → α → Bool) (l : List α) : List α := l.foldr (insertBy lt) []
+
+def sortEnts (l : List (Nat × Entity)) : List (Nat × Entity) := sortBy (fun a b => a.1 < b.1) l
+
+def sortEvent (e : Event) : Event := ⟨sortEnts e.del, sortEnts e.cre, sortEnts e.upd⟩
+
+/-- phase of a call inside `handleEvent`: delete loop, create loop, update loop -/
+def phase (c : Call) : Nat := match c.op with | .close => 0 | .init => 1 | .inherit => 2
+
+def sortCalls (l : List Call) : List Call :=
+  sortBy (fun a b => phase a < phase b || (phase a == phase b && a.name < b.name)) l
+
+def phasesMonotone : List Call → Bool
+  | a :: b :: r => phase a ≤ phase b && phasesMonotone (b :: r)
+  | _ => true
+
+def entJson (e : Nat × Entity) : Json :=
+  Json.arr #[Json.num e.1, Json.num e.2.gen, Json.num e.2.kind, Json.num e.2.body]
+
+def callJson (c : Call) : Json :=
+  Json.mkObj [("op", opName c.op), ("n", Json.num c.name), ("ent", entJson (c.name, c.ent)),
+    ("prev", match c.prev with | none => Json.null | some p => entJson (c.name, p)), ("panicked", c.panicked)]
+
+def wordStr (l : List Call) : String :=
+  if l.isEmpty then "-" else "+".intercalate (l.map (fun c => opName c.op))
+
+/-- classification of what happened to name `n` in one item, from the spec's point of view -/
+def classify (old new : Option Entity) : String :=
+  match old, new with
+  | none, none => "absent"
+  | none, some _ => "appear"
+  | some _, none => "disappear"
+  | some p, some e => if p = e then "unchanged" else if p.kind = e.kind then "update" else "kind-change"
+
+structure SpecSt where
+  att : Bool
+  regs : List (Nat × Option Entity)   -- per name: registry object according to the spec
+
+def judge : Judge := liftJudge fun input obs => do
+  let inp ← parseIn input
+  match obsPanic obs with
+  | some m => pure { agree := false, spec := false, sig := "panic:escaped-the-recovery", note := m }
+  | none =>
+  if (optStr obs "error") != "" then
+    pure { agree := false, spec := false, sig := "harness-error:" ++ optStr obs "error", note := optStr obs "error" }
+  else
+  let stepsJ ← getArr obs "steps"
+  let osteps ← stepsJ.toList.mapM parseStep
+  let hist := inp.hist.map (fun h => (h.1.map (validate inp), h.2))
+  -- universe of names
+  let names := (hist.foldl (fun acc h => match h.1 with
+      | some c => acc ++ c.map (·.1) | none => acc) ([] : List Nat)).eraseDups
+  let mut agree := osteps.length == hist.length
+  let mut spec := true
+  let mut sig := ""
+  let mut note := ""
+  let mut tags : List String := []
+  let mut expected : List Json := []
+  let mut sawKindIn := false
+  let mut sawKindAcross := false
+  let mut sawReappear := false
+  let mut sawInvalid := false
+  let mut panicHit := false
+  let mut nCalls : Nat := 0
+  let mut nNonInit : Nat := 0
+  -- one model system per watcher
+  let params := inp.watchers.map (mkParams inp)
+  let mut systems : List Sys := inp.watchers.map (fun _ => Sys.init)
+  let mut specs : List SpecSt := inp.watchers.map (fun _ => ⟨false, names.map (fun n => (n, none))⟩)
+  let mut g : Nat := 0
+  let mut everLive : List Nat := []
+  let mut idx : Nat := 0
+  for (h, os) in hist.zip osteps do
+    let mut newSystems : List Sys := []
+    let mut newSpecs : List SpecSt := []
+    let mut expEvents : List Json := []
+    let mut wi : Nat := 0
+    for ((w, P), (sys, sp)) in (inp.watchers.zip params).zip (systems.zip specs) do
+      let item? : Option Item := match h.1 with
+        | some cfg => some (.snap cfg)
+        | none => if h.2 == wi then some .attach else none
+      match item? with
+      | none =>
+        newSystems := newSystems ++ [sys]
+        newSpecs := newSpecs ++ [sp]
+        -- no event for this watcher may be observed
+        if !w.noEvents && os.events.any (fun e => e.1 == wi) then agree := false
+      | some item =>
+        let sys' := step P sys item
+        let ev := stepEvent P sys item
+        -- events
+        let obsEv := (os.events.filter (fun e => e.1 == wi)).map (fun e => sortEvent e.2)
+        let expEv := match ev with | some e => [sortEvent e] | none => []
+        if !w.noEvents && obsEv != expEv then
+          agree := false
+          if note == "" then note := s!"step {idx}: events of watcher {wi} differ"
+        expEvents := expEvents ++ expEv.map (fun e => Json.mkObj [("w", Json.num wi),
+          ("del", Json.arr (e.del.map entJson).toArray), ("cre", Json.arr (e.cre.map entJson).toArray),
+          ("upd", Json.arr (e.upd.map entJson).toArray)])
+        -- watcher.entities (when the harness reports it)
+        match os.wents.lookup wi with
+        | some es =>
+          if sortEnts es != sortEnts sys'.w.wents then
+            agree := false
+            if note == "" then note := s!"step {idx}: watcher.entities of watcher {wi} differ"
+        | none => pure ()
+        -- spec state of this watcher
+        let att' := match item with | .attach => true | .snap _ => sp.att
+        let regs' := sp.regs.map (fun (n, r) => match item with
+          | .attach => (n, r)
+          | .snap cfg => (n, regNext g r (cfg.get n)))
+        if w.consumer then
+          -- the calls / live objects of this consumer: those whose kind passes its filter
+          let os : ObsStep := { os with log := os.log.filter (fun c => P.passes c.ent),
+                                        live := os.live.filter (fun e => P.passes e.2) }
+          -- model log of this step
+          let newCalls := sys'.w.cons.log.drop sys.w.cons.log.length
+          if !(phasesMonotone os.log) || sortCalls os.log != sortCalls newCalls then
+            agree := false
+            if note == "" then note := s!"step {idx}: calls differ from the model"
+          let mlive := sortBy (fun a b => a.1 < b.1) (sys'.w.cons.store.map (fun e => (e.1.2, e.2)))
+          if sortEnts os.live != mlive then
+            agree := false
+            if note == "" then note := s!"step {idx}: live set differs from the model"
+          expected := expected ++ [Json.mkObj [("log", Json.arr (newCalls.map callJson).toArray),
+            ("live", Json.arr (mlive.map entJson).toArray)]]
+          -- executable specification, per name, on what the implementation did
+          for ((n, r), (_, r')) in sp.regs.zip regs' do
+            let vo := view P sp.att r
+            let vn := view P att' r'
+            let want := wordStep P n vo vn
+            let got := callsOf n os.log
+            let liveN := (os.live.filter (fun e => e.1 == n)).map (·.2)
+            let liveWant := match vn with | some e => [e] | none => []
+            let cls := match item with
+              | .attach => "attach"
+              | .snap _ => if (match r, r' with | some a, some b => a.kind != b.kind | _, _ => false)
+                  then "kind-change" else classify vo vn
+            if spec then
+              if got != want then
+                spec := false
+                let detail :=
+                  if got.map (·.op) != want.map (·.op) then ""
+                  else if got.map (·.prev) != want.map (·.prev) then "!predecessor"
+                  else if got.map (·.ent) != want.map (·.ent) then "!object"
+                  else "!panic-flag"
+                sig := s!"{cls}:want={wordStr want},got={wordStr got}{detail}"
+                note := s!"step {idx} name {n}"
+              else if liveN != liveWant then
+                spec := false
+                sig := s!"{cls}:live-set"
+                note := s!"step {idx} name {n}"
+            -- tags
+            match r, r' with
+            | some a, some b =>
+              if a.kind != b.kind then
+                if P.cat a.kind == P.cat b.kind then sawKindIn := true else sawKindAcross := true
+            | none, some _ => if everLive.contains n then sawReappear := true
+            | _, _ => pure ()
+            if r'.isSome && !everLive.contains n then everLive := n :: everLive
+          -- calls on names outside the universe are never expected
+          if spec && os.log.any (fun c => !names.contains c.name) then
+            spec := false
+            sig := "call-on-unknown-name"
+          nCalls := nCalls + os.log.length
+          nNonInit := nNonInit + (os.log.filter (fun c => c.op != .init)).length
+          if os.log.any (·.panicked) then panicHit := true
+        newSystems := newSystems ++ [sys']
+        newSpecs := newSpecs ++ [⟨att', regs'⟩]
+      wi := wi + 1
+    -- every observed call / live object must belong to some consumer
+    let claimed (e : Entity) : Bool := (inp.watchers.zip params).any (fun wp => wp.1.consumer && wp.2.passes e)
+    if spec && (os.log.any (fun c => !claimed c.ent) || os.live.any (fun e => !claimed e.2)) then
+      spec := false
+      agree := false
+      sig := "object-of-unwatched-kind-touched"
+      note := s!"step {idx}"
+    -- registry (model): identical for every watcher's system
+    match newSystems.head? with
+    | some s0 =>
+      if sortEnts os.reg != sortEnts s0.ents then
+        agree := false
+        if note == "" then note := s!"step {idx}: registry differs from the model"
+    | none => pure ()
+    match h.1 with
+    | some cfg =>
+      g := g + 1
+      if cfg.any (fun e => e.2.isNone) then sawInvalid := true
+    | none => pure ()
+    systems := newSystems
+    specs := newSpecs
+    idx := idx + 1
+  let lateAttach := (hist.dropWhile (fun h => h.1.isNone)).any (fun h => h.1.isNone)
+  tags := (if sawKindIn then ["kind-change-same-category"] else [])
+    ++ (if sawKindAcross then ["kind-change-across-categories"] else [])
+    ++ (if sawReappear then ["reappear"] else [])
+    ++ (if sawInvalid then ["invalid-entry"] else [])
+    ++ (if lateAttach then ["late-or-repeated-attach"] else [])
+    ++ (if inp.panics.isEmpty then ["no-faults"] else ["faults"])
+    ++ (if panicHit then ["panic-hit"] else [])
+    ++ [if hist.length ≤ 6 then "len<=6" else if hist.length ≤ 16 then "len<=16" else "len>16"]
+  pure { agree := agree, spec := spec, expected := Json.arr expected.toArray, tags := tags,
+         nontrivial := nCalls ≥ 3 && nNonInit ≥ 1, sig := sig, note := note }
+
+def judges : List (String × Judge) := [("C20", judge)]
 
 end Driver.C20
 
